@@ -1627,7 +1627,9 @@ def py_parse_int(s, lo, hi):
     return 'ok:%d' % v
 
 def judge_c20(ops, impl):
-    bad = []
+    bad = [(i, 'runtime fault in a Params operation (%s)' % l.split(' ', 1)[0]) for i, (l, o) in enumerate(zip(ops, impl)) if l.startswith('ctx-') and o == 'fault']
+    if bad:
+        return bad[:3]
     shadow = {}
     pf = {}        # value -> what strconv.ParseFloat returns for it (computed by the generator with the real strconv)
     for i, (line, obs) in enumerate(zip(ops, impl)):
@@ -1839,6 +1841,10 @@ def judge_c02_lean_spec(ops, impl, model):
 
 JUDGES_WITH_MODEL = {'C02': [judge_c02_lean_spec]}
 
+def judge_caller_slices(ops, impl):
+    """arguments belong to the caller: a method list spread into Remove reads the same after the call"""
+    return [(i, 'Remove modified the method list of its caller: %s' % o[3:80]) for i, o in enumerate(impl[:len(ops)]) if o.startswith('ok caller-method-list-modified')]
+
 def run_judges(prop, ops, impl, model=None):
     out = []
     for j in JUDGES.get(prop, []):
@@ -1846,6 +1852,15 @@ def run_judges(prop, ops, impl, model=None):
             out += j(ops, impl)
         except RecursionError:
             pass
+        except (KeyError, ValueError, IndexError) as e:
+            # an observation the judge cannot read: the implementation answered something that is not an observation of this
+            # op at all (a recovered runtime fault, typically) — that line is the finding, the judge must not crash on it
+            k = next((i for i, o in enumerate(impl[:len(ops)]) if o == 'fault' or o.startswith('panicked') or ' => panicked:fault' in o or 'runtime error' in o), None)
+            if k is None:
+                raise
+            out.append((k, 'runtime fault instead of an observation: %s' % impl[k][:120]))
+    if prop in ('C03', 'C04', 'C19'):
+        out += judge_caller_slices(ops, impl)
     if model is not None:
         for j in JUDGES_WITH_MODEL.get(prop, []):
             out += j(ops, impl, model)
